@@ -53,12 +53,12 @@ def build_unit(name):
                 t = defs.get(m.group(1))
                 if t is None:
                     return m.group(0)
-                if m.group(2) is not None:
-                    if m.group(3) not in t:
-                        raise ExtractError(f'bundle ${m.group(1)}: text to replace not found: {m.group(3)}')
-                    t = t.replace(m.group(3), m.group(4))
+                for g in re.findall(r'\{([^{}]*?)=>([^{}]*?)\}', m.group(2) or ''):
+                    if g[0] not in t:
+                        raise ExtractError(f'bundle ${m.group(1)}: text to replace not found: {g[0]}')
+                    t = t.replace(g[0], g[1])
                 return t
-            s2 = re.sub(r'\$([A-Z][A-Z0-9_]*)(\{([^{}]*?)=>([^{}]*?)\})?', _sub1, s)
+            s2 = re.sub(r'\$([A-Z][A-Z0-9_]*)((?:\{[^{}]*?=>[^{}]*?\})*)', _sub1, s)
             if s2 == s: break
             s = s2
         return s
